@@ -571,12 +571,13 @@ static int jdf_sanity_check_flows_and_deps_number(void)
     jdf_function_entry_t *f;
     jdf_dataflow_t *flow;
     jdf_dep_t *dep;
-    int rc = 0, flows_in, flows_out, deps_in, deps_out;
+    int rc = 0, flows_in, flows_out, flows_total, deps_in, deps_out;
 
     for(f = current_jdf.functions; f != NULL; f = f->next) {
-        flows_in = flows_out = 0;
+        flows_in = flows_out = flows_total = 0;
         for(flow = f->dataflow; flow != NULL; flow = flow->next) {
 
+            flows_total++;
             flows_out += !!(JDF_FLOW_TYPE_WRITE & flow->flow_flags);
             flows_in  += !!(JDF_FLOW_TYPE_READ & flow->flow_flags);
 
@@ -608,6 +609,13 @@ static int jdf_sanity_check_flows_and_deps_number(void)
             jdf_warn(JDF_OBJECT_LINENO(f),
                      "Function %s: has too many (%d) output or WRITE flows (max allowed by this PaRSEC build is %d)\n",
                      f->fname, flows_out, MAX_PARAM_COUNT);
+            rc--;
+        }
+        /* Each flow (READ, WRITE, RW or CTL) uses one entry of the task's data[MAX_PARAM_COUNT] */
+        if( MAX_PARAM_COUNT < flows_total ) {
+            jdf_warn(JDF_OBJECT_LINENO(f),
+                     "Function %s: has too many (%d) flows (max allowed by this PaRSEC build is %d)\n",
+                     f->fname, flows_total, MAX_PARAM_COUNT);
             rc--;
         }
     }
